@@ -90,6 +90,9 @@ def corpus(ctx, rng):
                 k = 8 + 16 * rng.randrange(el // 16)
                 items.append(("entry", sb[k:k + 16] + rng.choice([b"", rng.randbytes(3)]), rng.choice([0, 1, 5, 30, 255, 270])))
         items.append(("entry", bytes([rng.choice([0, 1, 6, 7, 2, 255])]) + rng.randbytes(15), rng.choice([0, 3, 255, 300])))
+        # eventgroup entries with exactly one of the twelve reserved bits above the counter set
+        bit = 1 << rng.randint(20, 31)
+        items.append(("entry", bytes([rng.choice([6, 7]), 0, 0, 0]) + rng.randbytes(8) + (bit | rng.getrandbits(20)).to_bytes(4, "big"), 0))
     base = list(items)
     for kind, b, n in base:                              # mutations of everything
         for _ in range(ctx.pick(2, 3)):
